@@ -502,3 +502,97 @@ Definition io_agree (case : bool * list (list positive * list positive) * (list 
   let '(is_add, m, (m', f)) := case in
   let '(pm, pf) := if is_add then add_pass m else rm_pass m in
   list_eqb io_eqb pm m' && Bool.eqb pf f.
+
+(* ====================================================================== D. OutputFixPass (contract level)
+   One graph-like (the pass treats graph_like and each of its subgraphs the same way, one after the other):
+   inputs, outputs, and the Identity nodes (input value, output value) that the pass has appended to THIS graph.
+   isin v = Value.is_graph_input() (an input of some graph; never changed by the pass).  Fresh values are numbered
+   from `next`.  Value names (the `_alias_i` / `_orig` renames) are not modelled. *)
+Record ograph : Type := { o_ins : list positive; o_outs : list positive; o_added : list (positive * positive) }.
+
+Section OutputFix.
+  Variable isin : positive -> bool.
+
+  (* _alias_multi_used_outputs: the 2nd, 3rd ... occurrence of a value in graph.outputs gets an Identity *)
+  Fixpoint of_multi (outs seen : list positive) (next : positive)
+    : list positive * list (positive * positive) * positive :=
+    match outs with
+    | [] => ([], [], next)
+    | o :: r =>
+        if pmem o seen
+        then let '(r', a, n') := of_multi r seen (Pos.succ next) in (next :: r', (o, next) :: a, n')
+        else let '(r', a, n') := of_multi r (o :: seen) next in (o :: r', a, n')
+    end.
+
+  (* _alias_direct_outputs: an output that is a graph input gets an Identity *)
+  Fixpoint of_direct (outs : list positive) (next : positive)
+    : list positive * list (positive * positive) * positive :=
+    match outs with
+    | [] => ([], [], next)
+    | o :: r =>
+        if isin o
+        then let '(r', a, n') := of_direct r (Pos.succ next) in (next :: r', (o, next) :: a, n')
+        else let '(r', a, n') := of_direct r next in (o :: r', a, n')
+    end.
+
+  Definition of_graph (next : positive) (g : ograph) : ograph * bool :=
+    let '(o1, a1, n1) := of_multi (o_outs g) [] next in
+    let '(o2, a2, _) := of_direct o1 n1 in
+    ({| o_ins := o_ins g; o_outs := o2; o_added := o_added g ++ a1 ++ a2 |},
+     negb (match a1 with [] => true | _ => false end) || negb (match a2 with [] => true | _ => false end)).
+
+  (* the whole pass over the graph-likes it visits; every graph numbers its fresh values from `next` (identities
+     of fresh values are not compared) *)
+  Definition of_pass (next : positive) (m : list ograph) : list ograph * bool :=
+    (map (fun g => fst (of_graph next g)) m, existsb (fun g => snd (of_graph next g)) m).
+End OutputFix.
+
+(* observation that does not depend on how fresh values are numbered: outputs with fresh values as None, and per
+   appended Identity its input and the position of its output among the graph outputs *)
+Fixpoint pos_index (v : positive) (l : list positive) (i : nat) : option nat :=
+  match l with [] => None | x :: r => if Pos.eqb x v then Some i else pos_index v r (S i) end.
+Definition of_canon (next : positive) (g : ograph)
+  : list positive * list (option positive) * list (positive * option nat) :=
+  (o_ins g, map (fun v => if Pos.ltb v next then Some v else None) (o_outs g),
+   map (fun io => (fst io, pos_index (snd io) (o_outs g) 0)) (o_added g)).
+
+Definition canon_eqb (a b : list positive * list (option positive) * list (positive * option nat)) : bool :=
+  let '(a1, a2, a3) := a in let '(b1, b2, b3) := b in
+  list_eqb Pos.eqb a1 b1 && list_eqb (option_eqb Pos.eqb) a2 b2
+  && list_eqb (fun x y => Pos.eqb (fst x) (fst y) && option_eqb Nat.eqb (snd x) (snd y)) a3 b3.
+
+(* case: graph inputs of the whole model, next, graphs before, (canonical graphs after, flag) *)
+Definition of_agree
+  (case : list positive * positive * list ograph
+          * (list (list positive * list (option positive) * list (positive * option nat)) * bool)) : bool :=
+  let '(allins, next, m, (obs, f)) := case in
+  let '(m', pf) := of_pass (fun v => pmem v allins) next m in
+  list_eqb canon_eqb (map (of_canon next) m') obs && Bool.eqb pf f.
+
+(* ====================================================================== E. RemoveUnusedOpsetsPass
+   A graph-like: the keys of opset_imports (dict order) and the domains of all its nodes (recursively).
+   Domains are tokens; 1 = "" (always retained).  Main graph: also the domains of all functions are retained. *)
+Record uograph : Type := { uo_imports : list positive; uo_node_domains : list positive }.
+
+Definition uo_step (used : list positive) (g : uograph) : uograph * bool :=
+  let keep := fun d => pmem d (1%positive :: used ++ uo_node_domains g) in
+  ({| uo_imports := filter keep (uo_imports g); uo_node_domains := uo_node_domains g |},
+   existsb (fun d => negb (keep d)) (uo_imports g)).
+
+(* model = main graph, functions as (function domain, graph-like); process_functions as in the constructor *)
+Definition uo_pass (process_functions : bool) (m : uograph * list (positive * uograph))
+  : (uograph * list (positive * uograph)) * bool :=
+  let '(main, funcs) := m in
+  let r := uo_step (map fst funcs) main in
+  if process_functions
+  then ((fst r, map (fun f => (fst f, fst (uo_step [] (snd f)))) funcs),
+        snd r || existsb (fun f => snd (uo_step [] (snd f))) funcs)
+  else ((fst r, funcs), snd r).
+
+Definition uograph_eqb (a b : uograph) : bool :=
+  list_eqb Pos.eqb (uo_imports a) (uo_imports b) && list_eqb Pos.eqb (uo_node_domains a) (uo_node_domains b).
+Definition uo_agree (case : bool * (uograph * list (positive * uograph)) * ((uograph * list (positive * uograph)) * bool)) : bool :=
+  let '(pf, m, ((main', funcs'), f)) := case in
+  let '((pm, pfs), pflag) := uo_pass pf m in
+  uograph_eqb pm main' && list_eqb (fun x y => Pos.eqb (fst x) (fst y) && uograph_eqb (snd x) (snd y)) pfs funcs'
+  && Bool.eqb pflag f.
